@@ -118,3 +118,29 @@ pub fn declare(ty: &[String], name: &str, n: u32) -> Vec<String> {
 pub fn key(ty: &[String]) -> String {
     if ty.is_empty() { "-".to_string() } else { ty.join(".") }
 }
+
+// ---------------------------------------------------------------------------------------------
+// statement contexts (second dimension of the C07 / C08 matrices and of the CallEffects callees)
+// ---------------------------------------------------------------------------------------------
+pub const STMT_CONTEXTS: [&str; 9] = ["top", "block", "loop", "then", "else", "elif_then", "elif_else", "elif2", "label"];
+
+/// The locals the contexts use: `one` steers the branches so that the statement is executed exactly
+/// once, `fill` is what the other arms assign.
+pub const CTX_LOCALS: [&str; 2] = ["\tvar one: i32 = 1i32;", "\tvar fill: i32 = 0i32;"];
+
+/// Statement(s) `s` placed in statement context `y`, on ONE source line (so that the line of the
+/// construct stays known).  `uniq` makes the labels unique within a function.
+pub fn in_stmt_ctx(y: &str, s: &str, uniq: &str) -> String {
+    let s = s.trim();
+    match y {
+        "block" => format!("{{ {s} }}"),
+        "loop" => format!("{{ {s} if one == 1i32 goto out_{uniq}; loop; }} out_{uniq}:"),
+        "then" => format!("if one == 1i32 {{ {s} }}"),
+        "else" => format!("if one == 0i32 {{ fill = 1i32; }} else {{ {s} }}"),
+        "elif_then" => format!("if one == 0i32 {{ fill = 1i32; }} else if one == 1i32 {{ {s} }}"),
+        "elif_else" => format!("if one == 0i32 {{ fill = 1i32; }} else if one == 2i32 {{ fill = 2i32; }} else {{ {s} }}"),
+        "elif2" => format!("if one == 0i32 {{ fill = 1i32; }} else if one == 2i32 {{ fill = 2i32; }} else if one == 1i32 {{ {s} }}"),
+        "label" => format!("goto here_{uniq}; here_{uniq}: {s}"),
+        _ => s.to_string(),
+    }
+}
